@@ -116,7 +116,8 @@ pub fn parse_replies(buf: &[u8]) -> Result<(Vec<Reply64>, usize), String> {
         if len < 36 {
             return Err(format!("record length {} below the fixed header at offset {}", len, i));
         }
-        if len > 65_535 {
+        // (36 bytes of header in front of at most 65 507 bytes of payload)
+        if len > 36 + 65_507 {
             return Err(format!("record length {} beyond any UDP datagram at offset {}", len, i));
         }
         if buf.len() < i + 4 + len {
@@ -255,7 +256,13 @@ impl Scenario for Udp {
                 };
                 ops.push(UOp::Rec { flow: f, kind, payload, app: rng.usize_below(APPS.len()) });
                 if rng.chance(1, 5) {
-                    ops.push(UOp::Reply { flow: f, len: rng.size(0, 2048) as usize });
+                    // (now and then a reply as large as a UDP datagram gets)
+                    let len = if rng.chance(1, 12) {
+                        *rng.pick(&[65_507usize, 65_499, 65_473, 65_472, 65_471, 65_000, 40_000])
+                    } else {
+                        rng.size(0, 2048) as usize
+                    };
+                    ops.push(UOp::Reply { flow: f, len });
                 }
             }
             // sentinel: a valid record with payload, so that a preceding zero-payload record
